@@ -87,7 +87,7 @@ def make_spec(st, idx, tier):
         profile["threshold"] = 100
     if profile["pi_method"] == "bootstrap":
         profile["aggregates"] = ["postal_code"] + [a for a in profile["aggregates"] if a != "postal_code"]
-    if profile["model_parameters"].get("fit_turnout_outlier_model") and "unit" not in profile["aggregates"]:
+    if (profile["model_parameters"].get("fit_turnout_outlier_model") or profile["model_parameters"].get("fit_margin_outlier_model")) and "unit" not in profile["aggregates"]:
         profile["aggregates"].append("unit")
     k = dict(DEFAULT_FEED_KNOBS, versions=(1, 4), surge_frac=0.03, boundary_frac=0.05)
     mp = profile["model_parameters"]
